@@ -52,6 +52,8 @@ func (fv *FuncVC) frameEnv(fr *Frame, at *ssa.BasicBlock, cur *State) *SpecEnv {
 }
 
 func (fv *FuncVC) evalClause(env *SpecEnv, c Clause) string {
+	fv.m.readLogPaused++
+	defer func() { fv.m.readLogPaused-- }()
 	defer func() {
 		if r := recover(); r != nil {
 			if ee, ok := r.(*EngineError); ok {
